@@ -70,12 +70,16 @@ def arg_expr(tr, fn, bb, t, i):
     return tr.operand(t["args"][i], endpos(fn, bb))
 
 
+_FN2P = {}
+
+
 def tracer(P, fn, _cache={}):
     key = (id(P), fn.name)
     tr = _cache.get(key)
     if tr is None:
         tr = Tracer(P, fn)
         _cache[key] = tr
+        _FN2P[id(fn)] = P
     return tr
 
 
@@ -190,12 +194,91 @@ def reachable_without(fn, site_bb, removed_edges=(), removed_blocks=(), start=0)
 
 
 def must_pass_edges(fn, site_bb, edges):
-    """every path entry -> site crosses one of `edges`.
-    Sound form: delete the *other* out-edges?  No: delete the guard edges themselves and test
-    that the site becomes unreachable."""
+    """every (feasible) path entry -> site crosses one of `edges`: delete the guard edges and test that the
+    site becomes unreachable.  Paths that take contradictory outcomes of the same *stable* boolean atom
+    (an expression over parameters and constants only) are infeasible and pruned."""
     if not edges:
         return False
-    return not reachable_without(fn, site_bb, removed_edges=edges)
+    if not reachable_without(fn, site_bb, removed_edges=edges):
+        return True
+    P = _FN2P.get(id(fn))
+    if P is None:
+        return False
+    return not reachable_sensitive(P, fn, site_bb, removed_edges=edges)
+
+
+def _stable(fn, e, depth=0):
+    if depth > 12 or not isinstance(e, tuple):
+        return False
+    k = e[0]
+    if k == "const":
+        return True
+    if k == "param":
+        return len(fn.defs().get(e[1], [])) <= 1
+    if k in ("binop", "checked"):
+        return _stable(fn, e[2], depth + 1) and _stable(fn, e[3], depth + 1)
+    if k == "unop":
+        return _stable(fn, e[2], depth + 1)
+    if k in ("cast", "coerce", "ref", "deref"):
+        return _stable(fn, e[1], depth + 1)
+    return False
+
+
+def _stable_edge_facts(P, fn, _cache={}):
+    """{(b, tgt): (atom, bool)} for switch edges on stable boolean atoms"""
+    key = (id(P), fn.name)
+    if key in _cache:
+        return _cache[key]
+    facts = {}
+    for b in fn.live_blocks():
+        if fn.term(b)["k"] != "switch":
+            continue
+        for (tgt, atom, outcome) in switch_edges(P, fn, b):
+            if isinstance(outcome, bool) and _stable(fn, atom):
+                if (b, tgt) in facts:
+                    facts[(b, tgt)] = None     # both outcomes lead to the same target
+                else:
+                    facts[(b, tgt)] = (atom, outcome)
+    facts = {k: v for k, v in facts.items() if v is not None}
+    _cache[key] = facts
+    return facts
+
+
+def reachable_sensitive(P, fn, site_bb, removed_edges=(), removed_blocks=(), start=0):
+    facts = _stable_edge_facts(P, fn)
+    if not facts:
+        return reachable_without(fn, site_bb, removed_edges, removed_blocks, start)
+    removed_edges = set(removed_edges)
+    removed_blocks = set(removed_blocks)
+    if start in removed_blocks:
+        return False
+    init = (start, frozenset())
+    seen = {init}
+    st = [init]
+    limit = 200000
+    while st and limit > 0:
+        limit -= 1
+        b, env = st.pop()
+        if b == site_bb:
+            return True
+        for s in fn.succs(b):
+            if s in removed_blocks or (b, s) in removed_edges:
+                continue
+            env2 = env
+            f = facts.get((b, s))
+            if f is not None:
+                atom, val = f
+                d = dict(env)
+                if atom in d and d[atom] != val:
+                    continue
+                if atom not in d:
+                    d[atom] = val
+                    env2 = frozenset(d.items())
+            stt = (s, env2)
+            if stt not in seen:
+                seen.add(stt)
+                st.append(stt)
+    return limit <= 0
 
 
 def must_pass_blocks(fn, site_bb, blocks, start=0):
@@ -508,6 +591,19 @@ def may_send(P, _cache={}):
                 st.append(c)
     _cache[key] = seen
     return seen
+
+
+def recv_is_field(P, fn, bb, t, field, owner=None, argi=0):
+    """the receiver is exactly `<self-ish>.<field>` (not something looked up through it)"""
+    tr = tracer(P, fn)
+    e = tr.operand(t["args"][argi], endpos(fn, bb))
+    alts = strip(e)
+    if not alts:
+        return False
+    for a in alts:
+        if not (a[0] == "field" and a[2] == field and (owner is None or (a[3] or "").endswith(owner))):
+            return False
+    return True
 
 
 def recv_mentions(P, fn, bb, t, field, owner=None, argi=0):
